@@ -101,6 +101,27 @@ func H_Parse() {
 	for i := 0; i < L+M; i++ {
 		vLines = append(vLines, vLine("line"+strconv.Itoa(i+1)))
 	}
+	// optional case split on the first line (a partition: the four classes cover every line), so that
+	// the instances of a long listing can run in parallel
+	if cl := vParamInt("class1"); cl > 0 && L+M > 0 {
+		l1 := vLines[0]
+		isText := strings.HasPrefix(l1, "TEXT")
+		isRaw := false
+		for _, ins := range p.rawSyscallInstructions {
+			isRaw = vOr(isRaw, strings.Contains(l1, ins))
+		}
+		isCall := strings.Contains(l1, "CALL")
+		switch cl {
+		case 1:
+			vAssume(isText)
+		case 2:
+			vAssume(vAnd(vNot(isText), isRaw))
+		case 3:
+			vAssume(vAnd(vNot(isText), vAnd(vNot(isRaw), isCall)))
+		default:
+			vAssume(vAnd(vNot(isText), vAnd(vNot(isRaw), vNot(isCall))))
+		}
+	}
 	vFindMemo = map[int]int{}
 	vWindowsOK, vWindowsSame = true, true
 	vOpenFails = false
